@@ -11,16 +11,72 @@ collateral inputs than the protocol maximum.
 namespace GV.Props.C32
 open GV.Model.Collateral
 
+private theorem sumQty_zero_of_empty (l : List COut) (a : Nat)
+    (h : ∀ o ∈ l, bundleOf o = []) : sumQty l a = 0 := by
+  unfold sumQty
+  induction l with
+  | nil => simp
+  | cons o l ih =>
+    have ho := h o (by simp)
+    have hl := ih (fun o' ho' => h o' (by simp [ho']))
+    rw [List.map_cons, List.sum_cons, hl, ho]
+    simp [qty]
+
+private theorem bundle_empty_of_not_bad (bp : Bool) (o : COut) (h : isBad bp o = false) :
+    bundleOf o = [] := by
+  unfold isBad at h
+  unfold bundleOf
+  cases ho : o.assets with
+  | none => simp
+  | some b =>
+    simp only [ho] at h
+    cases bp with
+    | true => simpa using h
+    | false => simp at h
+
+/-- The token clause: when the non-ada rule passes for a script transaction, every asset
+    carried by the collateral inputs is returned in full. -/
+theorem nonAda_sound (t : Tx) (hs : t.redeemers = true) (h : nonAdaOk t = true) :
+    nonAdaReturned t = true := by
+  unfold nonAdaOk at h
+  simp only [hs, Bool.not_true, Bool.false_eq_true, ↓reduceIte] at h
+  unfold nonAdaReturned
+  rw [List.all_eq_true]
+  intro a ha
+  by_cases hbad : t.ins.any (isBad t.hasReturnField) = true
+  · simp only [hbad, Bool.not_true, Bool.false_eq_true, ↓reduceIte] at h
+    by_cases hr : t.hasReturnField = true
+    · simp only [hr, Bool.not_true, Bool.false_eq_true, ↓reduceIte] at h
+      cases hret : t.ret with
+      | none => simp [hret] at h
+      | some r =>
+        simp only [hret] at h
+        unfold returnsAll at h
+        rw [List.all_eq_true] at h
+        have := h a (by simp [ha])
+        simp only [beq_iff_eq] at this
+        simp [this]
+    · simp [hr] at h
+  · have hall : ∀ o ∈ t.ins, bundleOf o = [] := by
+      intro o ho
+      apply bundle_empty_of_not_bad t.hasReturnField
+      cases hb : isBad t.hasReturnField o with
+      | false => rfl
+      | true =>
+        exfalso; apply hbad
+        rw [List.any_eq_true]; exact ⟨o, ho, hb⟩
+    simp [sumQty_zero_of_empty t.ins a hall]
+
 /-- Full statement: an accepted script-running transaction meets all four demands. -/
 theorem accepted_sound (t : Tx) (hs : t.redeemers = true) (h : accepted t = true) :
     1 ≤ t.ins.length ∧
     balanceCoin t * 100 ≥ (t.fee : Int) * (t.pct : Int) ∧
-    (sumTok t.ins = 0 ∨ (∃ r, t.ret = some r ∧ r.tok = sumTok t.ins)) ∧
+    nonAdaReturned t = true ∧
     t.ins.length ≤ t.maxInputs := by
   unfold accepted at h
   simp only [Bool.and_eq_true] at h
   obtain ⟨⟨⟨h1, h2⟩, h3⟩, h4⟩ := h
-  refine ⟨?_, ?_, ?_, ?_⟩
+  refine ⟨?_, ?_, nonAda_sound t hs h2, ?_⟩
   · unfold noCollateralOk at h3
     simp [hs] at h3
     cases hi : t.ins with
@@ -28,28 +84,6 @@ theorem accepted_sound (t : Tx) (hs : t.redeemers = true) (h : accepted t = true
     | cons a l => simp
   · unfold insufficientOk at h1
     simpa [hs] using h1
-  · unfold nonAdaOk at h2
-    simp only [hs, Bool.not_true, Bool.false_eq_true, ↓reduceIte] at h2
-    by_cases hall : t.ins.all (fun i => i.tok == 0) = true
-    · left
-      unfold sumTok
-      have : ∀ l : List CIn, l.all (fun i => i.tok == 0) = true → (l.map (·.tok)).sum = 0 := by
-        intro l; induction l with
-        | nil => simp
-        | cons a l ih =>
-          intro h; simp only [List.all_cons, Bool.and_eq_true, beq_iff_eq] at h
-          simp [h.1, ih h.2]
-      exact this _ hall
-    · right
-      simp only [hall, Bool.false_eq_true, ↓reduceIte] at h2
-      by_cases hr : t.hasReturnField = true
-      · simp only [hr, Bool.not_true, Bool.false_eq_true, ↓reduceIte] at h2
-        cases hret : t.ret with
-        | none => simp [hret] at h2
-        | some r =>
-          simp only [hret, beq_iff_eq] at h2
-          exact ⟨r, rfl, h2.symm⟩
-      · simp [hr] at h2
   · unfold tooManyOk at h4
     simpa using h4
 
@@ -60,11 +94,8 @@ theorem accepted_imp_demanded (t : Tx) (hs : t.redeemers = true) :
   intro h
   obtain ⟨h1, h2, h3, h4⟩ := accepted_sound t hs h
   unfold demanded
-  simp only [Bool.and_eq_true, decide_eq_true_eq, Bool.or_eq_true, beq_iff_eq]
-  refine ⟨⟨⟨h1, h2⟩, ?_⟩, h4⟩
-  rcases h3 with h3 | ⟨r, hr, hrt⟩
-  · left; exact h3
-  · right; simp [hr, hrt]
+  simp only [Bool.and_eq_true, decide_eq_true_eq]
+  exact ⟨⟨⟨h1, h2⟩, h3⟩, h4⟩
 
 /-- The sufficiency rule is *exactly* the integer inequality: nothing is rounded
     in the transaction's favour, in either direction. -/
@@ -80,8 +111,15 @@ theorem no_scripts_no_demand (t : Tx) (hs : t.redeemers = false) :
 /-- Floor division would be unsound: the witness the old code accepted. -/
 theorem floor_division_counterexample :
     let t : Tx := { hasReturnField := false, redeemers := true, fee := 1, pct := 150,
-                    maxInputs := 3, ins := [⟨1, 0⟩], ret := none }
+                    maxInputs := 3, ins := [⟨1, none⟩], ret := none }
     (decide (sumCoin t.ins ≥ t.fee * t.pct / 100) = true) ∧ insufficientOk t = false := by
+  decide
+
+/-- A partial token return is not a return: two asset names, only one comes back. -/
+theorem partial_return_rejected :
+    let t : Tx := { hasReturnField := true, redeemers := true, fee := 1, pct := 100,
+                    maxInputs := 3, ins := [⟨10, some [(0, 5), (1, 7)]⟩], ret := some ⟨1, some [(0, 5)]⟩ }
+    nonAdaOk t = false := by
   decide
 
 /-- Regenerated tie: the four modelled rules are entries of every era's rule list
@@ -93,8 +131,10 @@ theorem rules_listed :
       "UtxoValidateNoCollateralInputs" ∈ l ∧ "UtxoValidateTooManyCollateralInputs" ∈ l := by
   decide
 
-/-- Non-vacuity: a concrete accepted script transaction exists. -/
+/-- Non-vacuity: a concrete accepted script transaction exists (tokens spread over two
+    inputs and fully returned). -/
 example : accepted { hasReturnField := true, redeemers := true, fee := 200, pct := 150,
-                     maxInputs := 3, ins := [⟨500, 7⟩], ret := some ⟨200, 7⟩ } = true := by decide
+                     maxInputs := 3, ins := [⟨500, some [(0, 7)]⟩, ⟨10, some [(0, 1), (3, 2)]⟩],
+                     ret := some ⟨210, some [(3, 2), (0, 8)]⟩ } = true := by decide
 
 end GV.Props.C32
